@@ -60,9 +60,12 @@ VARS = [
     ("book.name", "string", ["shelves/*/books/*"]),
     ("item.id", "string", [None, "items/*"]),
     ("item.owner.id", "string", [None]),
+    ("type.name", "string", ["kinds/*"]),          # reserved NON-leaf segment (possible since the C12 repairs a11332b/52dedca)
+    ("book.class", "string", ["classes/*", None]),  # reserved leaf segment
+    ("object.import.id", "string", [None]),         # reserved segments at depth 1 and 2
 ]
-HOLDERS = {"book": "Book", "item": "Item"}
-BODY_FIELDS = [("book", "Book"), ("item", "Item"), ("payload", "Book"), ("object", "Author")]
+HOLDERS = {"book": "Book", "item": "Item", "type": "Kind", "object": "Crate"}
+BODY_FIELDS = [("book", "Book"), ("item", "Item"), ("payload", "Book"), ("object", "Crate")]
 LITS = ["shelves", "books", "items", "archives", "v2.1", "things-x", "a_b"]
 VERBS_TAIL = ["move", "batchGet", "undelete"]
 SEGS = ["s1", "b-2", "héllo", "a b", "x&y=z", "a+b", "q~r", "c.d", "UPPER", "7", "k:v", "semi;colon", "at@sign", "com,ma"]
@@ -96,7 +99,7 @@ def gen_binding(r, mvars, k, verb=None, body_like=None, body_fields=()):
     return {"verb": verb, "uri": uri, "body": body, "vars": [[p, t, s] for (p, t, s) in chosen]}
 
 
-def gen_method(r, idx, kind="http", nbind=None, required_kinds=None):
+def gen_method(r, idx, kind="http", nbind=None, required_kinds=None, no_required=None):
     m = {"name": f"{r.pick(['Get', 'Update', 'Create', 'Move', 'Delete', 'Lookup'])}Thing{idx}", "kind": kind,
          "out": r.pick(["Book", "Book", "Empty", "Same"]), "fields": [], "bindings": []}
     pool = r.sample(VARS, r.randint(1, 3))
@@ -127,7 +130,8 @@ def gen_method(r, idx, kind="http", nbind=None, required_kinds=None):
             continue
         add({"name": bn, "type": "message", "type_name": bt, "required": r.maybe(0.3)})
         body_fields.append(bn)
-    body_fields += [f["name"] for f in fields if f["name"] in HOLDERS and f["name"] not in body_fields]
+    body_fields += [f["name"] for f in fields if f["name"] in HOLDERS and f.get("type") == "message" and f["name"] not in body_fields]
+    body_fields = [b for b in body_fields if any(f["name"] == b and f.get("type") == "message" for f in fields)]
     nreq = 0
     for (n, t) in r.sample(SCALAR_EXTRAS, r.randint(2, 6)):
         req = r.maybe(0.35)
@@ -147,6 +151,9 @@ def gen_method(r, idx, kind="http", nbind=None, required_kinds=None):
         if f.get("repeated") and f.get("type") != "message" and r.maybe(0.08):
             f["required"] = True
         add(f)
+    if no_required if no_required is not None else r.maybe(0.2):      # a request without any REQUIRED field
+        for f in fields:
+            f.pop("required", None)
     r.shuffle(fields)
     m["fields"] = fields
     if kind in ("http", "cstream"):
@@ -161,11 +168,25 @@ def gen_method(r, idx, kind="http", nbind=None, required_kinds=None):
     return m
 
 
+def gen_update_method(r, idx):
+    """the AIP-134 shape: PATCH, nested path variable inside the body field, update_mask left to the query"""
+    fields = [{"name": "book", "type": "message", "type_name": "Book", "required": r.maybe(0.7)},
+              {"name": "update_mask", "type": "message", "type_name": ".google.protobuf.FieldMask", "required": r.maybe(0.3)},
+              {"name": "allow_missing", "type": "bool", "required": r.maybe(0.3)},
+              {"name": "validate_only", "type": "bool"}, {"name": "view", "type": "enum", "type_name": "Genre"}]
+    v = r.pick([["book.name", "string", "shelves/*/books/*"], ["book.class", "string", "classes/*"]])
+    uri = "/v1/{" + v[0] + "=" + v[2] + "}" + r.pick(["", ":patch"])
+    return {"name": f"UpdateBook{idx}", "kind": "http", "out": r.pick(["Book", "Same"]), "fields": fields, "update_shape": True,
+            "bindings": [{"verb": "patch", "uri": uri, "body": r.pick(["book", "book", "*"]), "vars": [v]}]}
+
+
 def gen_api(r, idx, nmethods=6):
     spec = {"numeric": r.maybe(0.5), "transport": r.pick(["rest", "grpc+rest"]), "methods": []}
     for i in range(nmethods):
         spec["methods"].append(gen_method(r, i))
     spec["methods"].append(gen_method(r, nmethods, kind=r.pick(["nohttp", "nohttp", "custom"])))
+    if r.maybe(0.4):
+        spec["methods"].append(gen_update_method(r, nmethods + 2))
     if r.maybe(0.25):            # a client-streaming method WITH a binding: refused as well (model correspondence only)
         spec["methods"].append(gen_method(r, nmethods + 1, kind="cstream", nbind=1))
     return spec
@@ -185,7 +206,11 @@ def build_files(spec):
     book.field("update_time", "message", type_name=".google.protobuf.Timestamp"); book.field("stock", "int32", repeated=True)
     book.field("chapters", "message", repeated=True, type_name=chapter); book.field("extra", "message", type_name=".google.protobuf.Struct")
     book.field("moods", "enum", repeated=True, type_name=genre); book.map_field("shelf_genres", "string", "enum", vtype_name=genre)
-    types = {"Genre": genre, "Author": author, "Chapter": chapter, "Owner": owner, "Item": item, "Book": book}
+    kind = f.msg("Kind"); kind.field("name"); kind.field("level", "int32"); kind.field("tone", "enum", type_name=genre)
+    imp = f.msg("Import"); imp.field("id"); imp.field("from"); imp.field("weight", "int32")
+    crate = f.msg("Crate"); crate.field("import", "message", type_name=imp); crate.field("given"); crate.field("list", repeated=True)
+    types = {"Genre": genre, "Author": author, "Chapter": chapter, "Owner": owner, "Item": item, "Book": book,
+             "Kind": kind, "Import": imp, "Crate": crate}
     svc = f.service(SVC, host="catalog.example.com")
     for m in spec["methods"]:
         rq = f.msg(m["name"] + "Request")
@@ -789,16 +814,80 @@ def classify_raise(m, val, res):
     return f"call-raised:{exc}"
 
 
+LOCAL_ERRORS = ("ValueError", "KeyError", "NotImplementedError", "AttributeError", "TypeError", "ParseError", "NameError")
+STATUSES = [201, 399, 400, 401, 404, 409, 429, 500, 503]
+
+
+def to_literal(desc, d):
+    """the dict a caller writes by hand for the proto-plus request (python values, NOT derived from bytes through the
+    generated classes); None when a value has no plain-python spelling that survives JSON (bytes, Timestamp, …)"""
+    out = {}
+    for k, v in d.items():
+        fd = desc.fields_by_name[k]
+
+        def one(x):
+            if fd.message_type is not None and not is_map(fd):
+                full = fd.message_type.full_name
+                if full in WKT_LEAF:
+                    short = full.rsplit(".", 1)[-1]
+                    if short in WRAPPED and WRAPPED[short] != FD.TYPE_BYTES:
+                        return int(x) if WRAPPED[short] in INT64S else x
+                    raise Bad(full)
+                if full in STRUCTISH:
+                    raise Bad(full)
+                sub = to_literal(fd.message_type, x)
+                if sub is None:
+                    raise Bad(full)
+                return sub
+            if fd.type == FD.TYPE_BYTES:
+                raise Bad("bytes")
+            if fd.type in INT64S:
+                return int(x)
+            return x
+        try:
+            if is_map(fd):
+                vf = fd.message_type.fields_by_name["value"]
+                if vf.message_type is not None or vf.type == FD.TYPE_BYTES:
+                    return None
+                out[k] = dict(v)
+            elif fd.label == fd.LABEL_REPEATED:
+                out[k] = [one(x) for x in v]
+            else:
+                out[k] = one(v)
+        except Bad:
+            return None
+    return out
+
+
 def plan_calls(ctx, r, codec, spec, ncalls):
     plans = []
     for m in spec["methods"]:
         n = ncalls if m["kind"] == "http" else 1
+        desc = codec.pool.FindMessageTypeByName(in_full(m))
         for _ in range(n):
             val = gen_valuation(r, codec, m)
+            if m.get("update_shape") and r.maybe(0.7):      # FieldMask in its JSON spelling: lowerCamel, dotted, several paths
+                val["update_mask"] = r.pick(["title", "updateTime,author.givenName", "shelfGenres,pages", "class"])
+                val = codec.normal(in_full(m), val)
             reply_val = {} if m["out"] == "Empty" else rpc.rand_msg(r, codec, out_full(m), p_set=0.5)
             reply_json = to_reply_json(r, codec, out_full(m), reply_val, spec["numeric"])
-            plans.append({"method": m["name"], "request": val, "reply": reply_val, "reply_json": reply_json,
-                          "mode": r.pick(["request-instance", "request-instance", "request-dict"])})
+            plan = {"method": m["name"], "request": val, "reply": reply_val, "reply_json": reply_json,
+                    "mode": r.pick(["request-instance", "request-instance", "request-dict", "request-literal-dict"])}
+            if plan["mode"] == "request-literal-dict":
+                lit = to_literal(desc, val) if m["kind"] != "cstream" else None
+                if lit is None:
+                    plan["mode"] = "request-dict"
+                else:
+                    plan["literal"] = lit
+            if m["kind"] == "http" and r.maybe(0.15):
+                plan["status"] = r.pick(STATUSES)
+            plans.append(plan)
+    # a call repeated on the same client with the same request: nothing may leak from the first into the second
+    sendable = [p for p in plans if p.get("status", 200) == 200 and next(x for x in spec["methods"] if x["name"] == p["method"])["kind"] == "http"]
+    for p in r.sample(sendable, min(2, len(sendable))):
+        q = copy.deepcopy(p)
+        q["repeat"] = True
+        plans.append(q)
     return plans
 
 
@@ -816,7 +905,10 @@ def oracle_call(ctx, codec, spec, m, plan, res, label):
                      f"{res.get('raised') or 'a result'} with {len(server)} request(s) sent", payload)
         return None
     expected_k = select_binding(m, val)
-    if "ok" not in res:
+    status = plan.get("status", 200)
+    http_error = ("ok" not in res and status >= 400 and len(server) == 1 and res.get("raised") not in LOCAL_ERRORS)
+    ctx.count("reply_status", status)
+    if "ok" not in res and not http_error:
         if expected_k is None:
             ctx.count("calls", "no-binding-matches-request")
             if server:
@@ -847,7 +939,7 @@ def oracle_call(ctx, codec, spec, m, plan, res, label):
         if best is None or score < best[2]:
             best = (k, probs, score)
     k, probs, _ = best
-    ctx.count("calls", "sent")
+    ctx.count("calls", "sent" + (":repeat" if plan.get("repeat") else ""))
     ctx.count("binding_used", "primary" if k == 0 else "additional")
     ctx.count("body_kind", {None: "none", "*": "star"}.get(m["bindings"][k]["body"], "field"))
     seen = set()
@@ -860,6 +952,12 @@ def oracle_call(ctx, codec, spec, m, plan, res, label):
     hdr = {a.lower(): b for a, b in rec["headers"]}
     if hdr.get("content-type") != "application/json":
         ctx.fail("content-type", f"{m['name']}: Content-Type {hdr.get('content-type')!r}", payload)
+    result = {"k": k, "keys": seen, "candidates": len(cands)}
+    if http_error:           # the statement is silent about error replies; the `>= 400` split is compared with the model
+        return result
+    if status >= 400:
+        ctx.fail("error-status-returned", f"{m['name']}: HTTP {status} reply was returned as a result", payload)
+        return result
     # reply decoded into the declared type
     ok = res["ok"]
     if m["out"] == "Empty":
@@ -872,7 +970,7 @@ def oracle_call(ctx, codec, spec, m, plan, res, label):
             got = codec.decode(out_full(m), ok["b64"])
             if got != plan["reply"]:
                 ctx.fail("reply-value", f"{m['name']}: reply {plan['reply_json']} decoded to {got}, expected {plan['reply']}", payload)
-    return k
+    return result
 
 
 def run_api(ctx, r, spec, label, ncalls=None, model=True, plans=None):
@@ -909,9 +1007,14 @@ def run_api(ctx, r, spec, label, ncalls=None, model=True, plans=None):
         for p in plans:
             m = next(x for x in spec["methods"] if x["name"] == p["method"])
             wm = svc.methods[m["name"]]
+            st = p.get("status", 200)
+            rbody = p["reply_json"] if st < 400 else {"error": {"code": st, "message": "scripted", "status": "SCRIPTED"}}
             call = {"method": snake(wm.client_method_name), "mode": p["mode"], "py_request": rpc.py_type(wm.input),
                     "request_b64": codec.encode_b64(in_full(m), p["request"]),
-                    "script": [{"status": 200, "body": json.dumps(p["reply_json"])}]}
+                    "script": [{"status": st, "body": json.dumps(rbody)}]}
+            if p["mode"] == "request-literal-dict":
+                call["request_literal"] = p["literal"]
+            ctx.count("mode", p["mode"])
             if m["kind"] == "cstream":
                 call["mode"] = "request-none"
                 call["stream_requests"] = [call["request_b64"]]
@@ -926,9 +1029,9 @@ def run_api(ctx, r, spec, label, ncalls=None, model=True, plans=None):
             ctx.case({"method": {k: v for k, v in m.items() if k != "fields"}, "request": p["request"], "numeric": spec["numeric"]},
                      distinct_key=[json.dumps(m["bindings"], sort_keys=True), json.dumps(p["request"], sort_keys=True), spec["numeric"]],
                      nontrivial=bool(p["request"]) or m["kind"] != "http")
-            oracle_call(ctx, codec, spec, m, p, res_, label)
+            orc = oracle_call(ctx, codec, spec, m, p, res_, label)
             if mo is not None:
-                t3_compare(ctx, spec, codec, m, p, res_, mo)
+                t3_compare(ctx, spec, codec, m, p, res_, mo, orc)
     finally:
         genrun.cleanup(root)
 
@@ -1179,10 +1282,18 @@ def t3_model(ctx, spec, codec, plans):
         m = next(x for x in spec["methods"] if x["name"] == p["method"])
         desc = codec.pool.FindMessageTypeByName(in_full(m))
         ops.append({"op": "c04.call", "method": method_json(m), "numeric": spec["numeric"], "req": leaves_of(desc, p["request"])})
-    return ctx.driver.ask(ops)
+    out = ctx.driver.ask(ops)
+    sts = sorted({p.get("status", 200) for p in plans})
+    raises = {st: x["raises"] for st, x in zip(sts, ctx.driver.ask([{"op": "c04.reply", "status": st} for st in sts]))}
+    for p, mo in zip(plans, out):
+        mo["reply_raises"] = raises[p.get("status", 200)]
+    return out
 
 
-def t3_compare(ctx, spec, codec, m, p, res, mo):
+DEFAULT_FAMILY = ("dup:path+query-required-default", "dup:body+query-required-default", "required-default-missing")
+
+
+def t3_compare(ctx, spec, codec, m, p, res, mo, orc=None):
     payload = {"spec": {"numeric": spec["numeric"], "transport": spec["transport"], "methods": [m]}, "plan": p}
     if "unsupported" in mo:
         ctx.unsupported += 1
@@ -1195,9 +1306,20 @@ def t3_compare(ctx, spec, codec, m, p, res, mo):
                          f"({res.get('msg', '')[:120]})", payload)
         return
     ctx.count("model_outcome", "sent")
-    if "ok" not in res or len(res.get("server", [])) != 1:
+    if len(res.get("server", [])) != 1 or ("ok" not in res and res.get("raised") in LOCAL_ERRORS):
         ctx.disagree("T3:c04.outcome", f"{m['name']}: model sends {mo['verb']} {mo['uri']}, impl raised {res.get('raised')}: {res.get('msg', '')[:200]}", payload)
         return
+    if mo["reply_raises"] != ("ok" not in res):
+        ctx.disagree("T3:c04.reply_status", f"{m['name']}: HTTP {p.get('status', 200)}: model {'raises' if mo['reply_raises'] else 'parses'}, "
+                     f"impl {'raised ' + str(res.get('raised')) if 'ok' not in res else 'returned'}", payload)
+    # hypothesis coverage of `no_duplication`/`added_iff_unbound_unset`: where `Agree` holds the oracle must be silent about defaults
+    ctx.count("agree_hypothesis", {True: "holds", False: "fails", None: "n/a"}[mo.get("agree")])
+    if orc is not None:
+        fam = sorted(k_ for k_ in orc["keys"] if k_.startswith(DEFAULT_FAMILY))
+        if mo.get("agree") is True and fam:
+            ctx.disagree("T3:c04.agree_implies_no_default_defect", f"{m['name']}: Agree holds for binding {mo.get('binding')} yet the oracle reports {fam}", payload)
+        if orc["candidates"] == 1 and mo.get("binding") is not None and orc["k"] != mo["binding"]:
+            ctx.disagree("T3:c04.binding", f"{m['name']}: model uses binding {mo['binding']}, the observed path instantiates binding {orc['k']}", payload)
     rec = res["server"][0]
     desc = codec.pool.FindMessageTypeByName(in_full(m))
     if rec["verb"].lower() != mo["verb"] or urllib.parse.unquote(rec["path"]) != mo["uri"]:
